@@ -123,9 +123,9 @@ def obligations(tier):
     obs = []
     for k in ("plain", "sgio", "iscsi"):
         obs.append(Ob("attach/%s" % k, MOD, "h_attach", {"kinds": [k]}))
-    seqs = [["plain", "plain"], ["sgio", "iscsi"], ["iscsi", "sgio"]]
+    seqs = [["plain", "plain"], ["sgio", "iscsi"], ["iscsi", "sgio"], ["sgio", "sgio"], ["iscsi", "iscsi"]]
     if tier == "thorough":
-        seqs += [["plain", "plain", "plain"], ["sgio", "sgio"], ["iscsi", "iscsi"], ["plain", "sgio", "iscsi"]]
+        seqs += [["plain", "plain", "plain"], ["plain", "sgio", "iscsi"], ["iscsi", "iscsi", "iscsi"], ["sgio", "sgio", "sgio"]]
     for sq in seqs:
         obs.append(Ob("history/" + "-".join(sq), MOD, "h_attach", {"kinds": sq}, split=len(sq) > 2))
     return obs
